@@ -28,7 +28,7 @@ DIMS = OrderedDict([
     ("gset", ["distinct", "same", "zero"]),
     ("bset", ["distinct", "zero"]),
     ("tgrid", ["std", "zero", "low", "hot", "desc", "mid0", "n8", "n16"]),
-    ("vgrid", ["three", "one", "five"]),
+    ("vgrid", ["three", "one", "five", "n8", "n16", "ascending"]),
     ("strain", ["const", "thirds", "extreme", "field"]),
     ("pkind", ["zero", "positive", "signed"]),
     ("gamma_fill", ["zeros", "garbage"]),
